@@ -174,6 +174,7 @@ type World struct {
 	pmm        *pmsg.PartialMessageManager
 	chainAvail map[int]map[gpbft.ECChainKey]time.Duration
 	vo   *validatorOracle
+	verifyHook func() // one-shot hook run inside the next Verify call (seam for interleaved validations)
 }
 
 func (w *World) fail(prop, kind, key, format string, args ...any) {
